@@ -93,6 +93,7 @@ class Profile:
     unaligned_pins: bool = False
     rates: bool = False
     day_efforts: bool = True
+    unequal_teams: bool = False  # teams whose members have different efficiencies (C12 only)
     year_end_holidays: bool = False  # global shutdown across New Year when the horizon contains one
     forward_refs: bool = True  # dependencies on tasks that are declared later in the file
     unsched: bool = False  # sprinkle unschedulable leaves: never-working resource, cycles, group allocations
@@ -359,7 +360,7 @@ def project_specs(draw, pf: Profile):
             if team:
                 others = [x for x in rids if x != alloc[0]]
                 # equal efficiency teams only (C03 limits)
-                same = [x for x in others if rmap[x].efficiency() == rmap[alloc[0]].efficiency()]
+                same = [x for x in others if pf.unequal_teams or rmap[x].efficiency() == rmap[alloc[0]].efficiency()]
                 if same:
                     alloc.append(draw(st.sampled_from(same)))
             t.alloc = alloc
